@@ -81,11 +81,10 @@ Expected(u, cur, e) ==
     [] e.ev = "backref"   -> PS(u)!DoBackref(cur, e.c, e.p)
     [] e.ev = "backtrack" -> PS(u)!DoBacktrack(cur, e.pos)
 
-Judge(u, cur, e) ==
-  IF ~Named(u, cur, e.st) THEN {"Projection"}
+Judge(u, cur, e, named, obs) ==
+  IF ~named THEN {"Projection"}
   ELSE IF e.st.dupes THEN {"SlottedTwice"}     \* one package object in two pigeonholes: no state of the model
   ELSE
-  LET obs == Obs(u, cur, e.st) IN
   IF ~Pre(u, cur, e) THEN {"OutsideDomain"}
   ELSE LET exp == Expected(u, cur, e)
            tag == IF e.ev = "backtrack" THEN "Rollback" ELSE IF e.ev = "replace" /\ exp.ret # {} THEN "RefusedReplace" ELSE "Post"
@@ -106,9 +105,11 @@ TraceNext == /\ l < Len(Tr)
                 THEN /\ uni' = UniOf(e)
                      /\ st' = PS(UniOf(e))!Empty
                 ELSE /\ uni' = uni
-                     /\ LET cur == IF e.i = 1 THEN PS(uni)!Empty ELSE st IN
-                        /\ Report(e.tid, e.i, Judge(uni, cur, e))
-                        /\ st' = IF Named(uni, cur, e.st) THEN Obs(uni, cur, e.st) ELSE cur
+                     /\ LET cur   == IF e.i = 1 THEN PS(uni)!Empty ELSE st
+                            named == Named(uni, cur, e.st)
+                            obs   == IF named THEN Obs(uni, cur, e.st) ELSE cur
+                        IN /\ Report(e.tid, e.i, Judge(uni, cur, e, named, obs))
+                           /\ st' = obs
              /\ EndMark(l')
 TraceSpec == TraceInit /\ [][TraceNext]_<<l, st, uni>>
 =========================================================================
